@@ -20,6 +20,7 @@
 #ifndef TBOX_JSONRPC_RPC_H
 #define TBOX_JSONRPC_RPC_H
 
+#include <cstdint>
 #include <functional>
 #include <unordered_map>
 #include <unordered_set>
@@ -81,7 +82,17 @@ class Rpc {
   protected:
     void onRecvRequest(int id, const std::string &method, const Json &params);
     void onRecvRespond(int id, int errcode, const Json &result);
-    void onRequestTimeout(int id);
+    //! 请求超时监测的条目：id 加上该请求的序号，用于识别 id 被复用后遗留的旧条目
+    struct RequestToken {
+        int id;
+        uint64_t seq;
+    };
+    struct RequestItem {
+        uint64_t seq = 0;
+        RequestCallback cb;
+    };
+
+    void onRequestTimeout(const RequestToken &token);
     void onRespondTimeout(int id);
 
   private:
@@ -92,9 +103,10 @@ class Rpc {
     std::unordered_map<std::string, ServiceCallback> method_services_;
 
     int id_alloc_ = 0;
-    std::unordered_map<int, RequestCallback> request_callback_;
+    uint64_t request_seq_ = 0;
+    std::unordered_map<int, RequestItem> request_callback_;
     std::unordered_set<int> tobe_respond_;
-    eventx::TimeoutMonitor<int> request_timeout_;   //! 请求超时监测
+    eventx::TimeoutMonitor<RequestToken> request_timeout_;   //! 请求超时监测
     eventx::TimeoutMonitor<int> respond_timeout_;   //! 回复超时监测
 };
 
